@@ -130,4 +130,20 @@ theorem src_mdpDefaultCtor : mdpDefaultCtor =
 theorem src_mdpSparseDefaultCtor : mdpSparseDefaultCtor =
     "setDiscount(discount);for(size_ta=0;a<A;++a)transitions_[a].setIdentity();" := rfl
 
+/-- modelled by: Consistent (a sampled step has T(s,a,s1) > 0 and O(s1,a,o) > 0: the observation is drawn from the row of the NEW state); filter_tracks_truth -/
+theorem src_denseSampleSOR : denseSampleSOR =
+    "constauto[s1,r]=this->sampleSR(s,a);constautoo=sampleProbability(O,observations_[a].row(s1),rand_);returnstd::make_tuple(s1,o,r);" := rfl
+
+/-- modelled by: Consistent (a sampled step has T(s,a,s1) > 0 and O(s1,a,o) > 0: the observation is drawn from the row of the NEW state); filter_tracks_truth -/
+theorem src_denseSampleOR : denseSampleOR =
+    "constsize_to=sampleProbability(O,observations_[a].row(s1),rand_);constdoubler=this->getExpectedReward(s,a,s1);returnstd::make_tuple(o,r);" := rfl
+
+/-- modelled by: Consistent (a sampled step has T(s,a,s1) > 0 and O(s1,a,o) > 0: the observation is drawn from the row of the NEW state); filter_tracks_truth -/
+theorem src_sparseSampleSOR : sparseSampleSOR =
+    "constauto[s1,r]=this->sampleSR(s,a);constautoo=sampleProbability(O,observations_[a].row(s1),rand_);returnstd::make_tuple(s1,o,r);" := rfl
+
+/-- modelled by: Consistent (a sampled step has T(s,a,s1) > 0 and O(s1,a,o) > 0: the observation is drawn from the row of the NEW state); filter_tracks_truth -/
+theorem src_sparseSampleOR : sparseSampleOR =
+    "constsize_to=sampleProbability(O,observations_[a].row(s1),rand_);constdoubler=this->getExpectedReward(s,a,s1);returnstd::make_tuple(o,r);" := rfl
+
 end AITB.Belief.DeepSrc
